@@ -11,20 +11,45 @@
 #define vspol ((mapping) REG->pol ("vs"))
 #define copol ((mapping) REG->pol ("co"))
 #define vbpol ((mapping) REG->pol ("vb"))
+#define vopol ((mapping) REG->pol ("vo"))
 
-void create () { oid = "m"; }
+// create(): at the first load and after `dest,m` only the id is set (the registry does not exist yet / the `dest` op announces
+// the new master once set_master made it root); after reload_object(master()) - the registry marks it - it announces itself and
+// runs its create() script like every other object
+void create () {
+  string ops;
+  oid = "m";
+  if (!find_object (REG) || !REG->reloading ()) return;
+  VL ("new m /c20/master " + us (getuid ()) + " " + us (geteuid ()));
+  REG->snap ();
+  ops = REG->script ("/c20/master");
+  if (!stringp (ops)) return;
+  REG->enter ();
+  foreach (string op in explode (ops, ";")) run_op (op);
+  REG->leave ();
+}
 
-private object connect (int port) { return new ("/vuser.c"); }
+// connect(): `do m connect,<newoid>,<path>` - the driver's mudlib_connect() applies connect(); the master clones the user
+// object (an ordinary, logged clone op of the master) and hands it back
+private object connect (int port) {
+  string c;
+  c = REG->take_connect ();
+  if (stringp (c)) { run_op ("clone," + c); return REG->get (explode (c, ",")[0]); }
+  return new ("/vuser.c");
+}
 // variants (`cfg noroot` / `cfg nobb` / `cfg novb`): the plugin writes /c20/master_<flags>.c files that define these macros
 // and include this file: set_master then finds no get_root_uid() (master keeps "NONAME" / 0) / no get_bb_uid(); bind()
 // finds no valid_bind() (a NULL result refuses)
 // `pol root <name>` / `pol bb <name>` change the answers (kept in the registry object, which does not exist yet when the
 // first master is loaded): a master reloaded later (`dest,m`) announces another root / backbone uid
+// (the answers are strings built at run time: nothing else holds them, so a driver that keeps the pointer across its next
+// master apply reads freed memory - which the sanitizer build reports)
+string fresh (string s) { return s[0..0] + s[1..]; }
 #ifndef C20_NO_ROOT
-string get_root_uid () { object r; r = find_object (REG); if (r && stringp (r->uid_name ("root"))) return r->uid_name ("root"); return "Root"; }
+string get_root_uid () { object r; r = find_object (REG); if (r && stringp (r->uid_name ("root"))) return fresh (r->uid_name ("root")); return fresh ("Root"); }
 #endif
 #ifndef C20_NO_BB
-string get_bb_uid () { object r; r = find_object (REG); if (r && stringp (r->uid_name ("bb"))) return r->uid_name ("bb"); return "Backbone"; }
+string get_bb_uid () { object r; r = find_object (REG); if (r && stringp (r->uid_name ("bb"))) return fresh (r->uid_name ("bb")); return fresh ("Backbone"); }
 #endif
 int valid_read (string path, mixed who, string fn) { return 1; }
 int valid_write (string path, mixed who, string fn) { return 1; }
@@ -38,6 +63,11 @@ string error_handler (mapping m, int caught) {
 }
 
 
+// preload: `do m preload,<path>` - the driver's preload_objects() asks epilog() for the list and calls preload() for each
+// file: the master then loads it (an ordinary, logged load op of the master)
+string *epilog (int eflag) { return REG->take_preloads (); }
+void preload (string file) { run_op ("load," + file); }
+
 void set_pol (string kind, string a, string b, string c) {
   mapping m;
   if (kind == "root" || kind == "bb") { REG->set_uid_name (kind, a); return; }
@@ -46,6 +76,7 @@ void set_pol (string kind, string a, string b, string c) {
   else if (kind == "co") { if (b == "-") map_delete (m, a); else m[a] = b; }
   else if (kind == "vs") m[a + ":" + (b == "-" ? "" : b)] = c;
   else if (kind == "vb") m[a + ":" + b] = c;
+  else if (kind == "vo") { if (b == "-") map_delete (m, a); else m[a] = b; }
 }
 
 mixed answer (string spec) {
@@ -54,6 +85,19 @@ mixed answer (string spec) {
   if (spec == "arr") return ({ });
   if (spec == "err") error ("policy error\n");
   return 0;
+}
+
+// valid_object(ob): asked by load_object about every new blueprint, before creator_file (`pol vo <dir> <spec>`; without a
+// policy for the directory: approve silently).  An approving answer closes the segment with a snapshot.
+mixed valid_object (object ob) {
+  string file, d, f, spec;
+  mixed a;
+  file = file_name (ob);
+  if (sscanf (file, "/c20/%s/%s", d, f) != 2 || !stringp (spec = vopol[d])) return 1;
+  VL ("vo " + file + " " + spec);
+  a = answer (spec);
+  if ((intp (a) && a) || (!intp (a))) REG->snap ();
+  return a;
 }
 
 mixed creator_file (string file) {
